@@ -34,6 +34,20 @@ pub struct RxLog {
     /// last source address seen per address number
     pub addr_of: std::collections::BTreeMap<u8, SocketAddr>,
     pub members: Vec<u8>,
+    /// arrival order: (arrival number, address number, source port, kind, ms); kind 0 = stream/other datagram,
+    /// 1 = keepalive, 2 = REG1, 3 = REG2, 4 = REG3 sent by the receiver to that address
+    pub order: Vec<(u64, u8, u16, u8, u64)>,
+}
+
+/// What the cooperative receiver is told to do wrong (fault injection on the real loop).
+#[derive(Default)]
+pub struct RxPolicy {
+    /// datagrams from these addresses are logged but neither processed nor answered (black hole)
+    pub muted: std::collections::BTreeSet<u8>,
+    /// this many REG1 frames are ignored (lost handshake)
+    pub ignore_reg1: u32,
+    /// one-shot: forget the group (Some(true): answer REG_ERR afterwards, Some(false): REG_NGP)
+    pub forget: Option<bool>,
 }
 
 pub struct E2e {
@@ -48,6 +62,7 @@ pub struct E2e {
     pub stats: SharedStats,
     pub cw: CriticalWindow,
     pub log: Arc<Mutex<RxLog>>,
+    pub policy: Arc<Mutex<RxPolicy>>,
     pub stop: Arc<AtomicBool>,
     pub start: Instant,
     pub sender_ended: Arc<AtomicBool>,
@@ -73,8 +88,12 @@ impl E2e {
     /// Start a sender on address numbers `addrs` with `config`; returns once every link is a receiver member,
     /// or None if that does not happen within `wait` (inconclusive).
     pub fn start(addrs: &[u8], config: DynamicConfig, wait: Duration) -> Option<E2e> {
+        Self::start_with(addrs, config, wait, RxPolicy::default())
+    }
+
+    pub fn start_with(addrs: &[u8], config: DynamicConfig, wait: Duration, policy: RxPolicy) -> Option<E2e> {
         let k = SCENARIO.fetch_add(1, Ordering::Relaxed);
-        let dir = std::path::Path::new(crate::rt::VERIF_DIR).join("harness").join("target");
+        let dir = crate::rt::verif_dir().join("harness").join("target");
         let _ = std::fs::create_dir_all(&dir);
         let ips_path = dir.join(format!("e2e-{}-{k}.ips", std::process::id()));
         let ctl_path = dir.join(format!("e2e-{}-{k}.sock", std::process::id()));
@@ -95,6 +114,7 @@ impl E2e {
             probe.local_addr().ok()?.port()
         };
         let log = Arc::new(Mutex::new(RxLog::default()));
+        let policy = Arc::new(Mutex::new(policy));
         let stop = Arc::new(AtomicBool::new(false));
         let start = Instant::now();
         let ack_every_ms = Arc::new(AtomicU64::new(50));
@@ -102,6 +122,7 @@ impl E2e {
         let rx_thread = {
             let sock = rx_sock.try_clone().ok()?;
             let log = log.clone();
+            let policy = policy.clone();
             let stop = stop.clone();
             let ack_every = ack_every_ms.clone();
             let n = 64usize;
@@ -109,22 +130,53 @@ impl E2e {
                 let mut rx = Receiver::new(n);
                 let mut buf = [0u8; 2048];
                 let mut last_ack = Instant::now();
+                let mut arrival = 0u64;
                 while !stop.load(Ordering::Acquire) {
                     let now = start.elapsed().as_millis() as u64 + 1;
+                    if let Some(err) = policy.lock().unwrap().forget.take() {
+                        rx.forget(err);
+                    }
                     if let Ok((len, src)) = sock.recv_from(&mut buf) {
                         let a = addr_no(src.ip());
                         if (a as usize) < n {
                             let b = &buf[..len];
-                            {
+                            arrival += 1;
+                            let skip = {
                                 let mut lg = log.lock().unwrap();
                                 lg.addr_of.insert(a, src);
-                                match rc::packet_type(b) {
-                                    Some(rc::T_KEEPALIVE) => lg.keepalives.push((a, now)),
-                                    Some(t @ (rc::T_REG1 | rc::T_REG2)) => lg.regs.push((a, t, now)),
-                                    _ => lg.data.push((a, b.to_vec(), now)),
+                                let kind = match rc::packet_type(b) {
+                                    Some(rc::T_KEEPALIVE) => {
+                                        lg.keepalives.push((a, now));
+                                        1
+                                    }
+                                    Some(t @ (rc::T_REG1 | rc::T_REG2)) => {
+                                        lg.regs.push((a, t, now));
+                                        if t == rc::T_REG1 { 2 } else { 3 }
+                                    }
+                                    _ => {
+                                        lg.data.push((a, b.to_vec(), now));
+                                        0
+                                    }
+                                };
+                                lg.order.push((arrival, a, src.port(), kind, now));
+                                let mut pol = policy.lock().unwrap();
+                                if pol.muted.contains(&a) {
+                                    true
+                                } else if kind == 2 && pol.ignore_reg1 > 0 {
+                                    pol.ignore_reg1 -= 1;
+                                    true
+                                } else {
+                                    false
                                 }
+                            };
+                            if skip {
+                                continue;
                             }
                             for r in rx.on_datagram(a, b, now) {
+                                if r.len() == 2 && r[0] == 0x92 && r[1] == 0x02 {
+                                    arrival += 1;
+                                    log.lock().unwrap().order.push((arrival, a, src.port(), 4, now));
+                                }
                                 let _ = sock.send_to(&r, src);
                             }
                             log.lock().unwrap().members = rx.members.iter().copied().collect();
@@ -134,7 +186,9 @@ impl E2e {
                     let every = ack_every.load(Ordering::Relaxed);
                     if every > 0 && last_ack.elapsed().as_millis() as u64 >= every {
                         last_ack = Instant::now();
-                        if let (Some(h), Some(l)) = (rx.highest_seq, rx.last_data_link) {
+                        if let (Some(h), Some(l)) = (rx.highest_seq, rx.last_data_link)
+                            && !policy.lock().unwrap().muted.contains(&l)
+                        {
                             let mut p = vec![0u8; 44];
                             p[0] = 0x80;
                             p[1] = 0x02;
@@ -164,6 +218,7 @@ impl E2e {
             stats,
             cw,
             log,
+            policy,
             stop,
             start,
             sender_ended,
